@@ -21,6 +21,9 @@ Proof. split; try done; by intros []. Qed.
 Lemma clg_dormant_blocks : gen_facts.(f_dormant_blocks) = true. Proof. reflexivity. Qed.
 Lemma clg_spawn_cmp : fact_spawn_cmp = CLt. Proof. reflexivity. Qed.
 Lemma clg_retry_after_spawn : fact_schedule_thread_retries_after_spawn = true. Proof. reflexivity. Qed.
+(* a pool thread killed by a panicking job is reaped whatever its busy flag says, so its slot is free again (the model has no dead threads) *)
+Lemma clg_reap_tests_only_is_finished : fact_reap_tests_only_is_finished = true. Proof. reflexivity. Qed.
+Lemma clg_dormant_reaps_first : fact_dormant_reaps_first = true. Proof. reflexivity. Qed.
 Lemma clg_busy_cleared_only_on_none : fact_busy_cleared_only_on_none = true. Proof. reflexivity. Qed.
 
 Theorem C10_now : forall nq mx scripts, wf_scripts nq scripts -> 1 <= mx ->
